@@ -569,6 +569,7 @@ def run_edit_program(ctx, rng, max_steps):
     edit = []             # model: indices into groups
     cur = "replace"
     last = ["none"]       # mode of the most recent update
+    last_close = [None]
     log = []
     combining = 0
     nsteps = rng.randint(4, max_steps)
@@ -656,8 +657,15 @@ def run_edit_program(ctx, rng, max_steps):
         else:
             n_new = rng.choice([1, 1, 1, 2, 2, 3])
             base = len(descs)
-            for _ in range(n_new):
-                descs.append(L.rand_leaf(rng, W))
+            if rng.random() < 0.2:
+                # a selection on the large-magnitude attribute, most often the previous one with a bound moved
+                n_new = 1
+                last_close[0] = L.close_leaf(rng, W, last_close[0] if rng.random() < 0.75 else None)
+                descs.append(last_close[0])
+                ctx.count("edit_updates:close_bounds_on_large_magnitude_attribute")
+            else:
+                for _ in range(n_new):
+                    descs.append(L.rand_leaf(rng, W))
             tree = small_tree(rng, base, n_new) if n_new <= 2 else ["multior", [["leaf", base + j] for j in range(n_new)]]
             leaves = {base + j: L.build_leaf(W, descs[base + j]) for j in range(n_new)}
             nodes = []
